@@ -18,6 +18,23 @@
 //!
 //! Deviation from DESIGN.md: the other dialects ("text parses with sqlparser's matching dialect") are not
 //! exercised here.
+//!
+//! # Recorded findings (message-shape rules in ../signatures.json — FAMILIES keyed by symptom + construct;
+//! regression cases under /verif/regressions/C38/c38/)
+//! as-planned plans and expressions: `expr-unparser-nested-negation-becomes-comment` (`- (- x)` → `--x`),
+//! `unparser-missing-parentheses-around-predicate-operand` (`(NOT x) IS NULL` → `NOT x IS NULL`: other value),
+//! `expr-unparser-identifier-quote-not-escaped`, `unparser-semi-anti-join-scoping` (also wrong rows);
+//! optimized plans: `unparser-sort-fetch-overrides-limit` (wrong rows), `unparser-null-equal-join-keys-become-plain-equality`
+//! (wrong rows), `unparser-empty-relation-without-rows-as-fromless-select` (wrong rows), `unparser-cross-join-with-one-row-empty-relation-drops-from`
+//! (wrong rows), `unparser-empty-projection-select-from`, `unparser-typed-null-literal-becomes-untyped`,
+//! `unparser-optimized-plan-sql-does-not-plan` (coarse family).
+//! A plan scanning a table function is a discard (printed as a quoted table name — limitation, not demanded);
+//! `NotImplemented` while re-planning / running the generated SQL is a discard.
+//!
+//! # Sensitivity probes (mutrun, /verif/probes/vf-serde/m4-unparser-probes.diff, quick tier, seed 0)
+//! * binary expressions printed without `Nested` parentheses (`a + b * c / 7` for `(a + b) * (c / 7)`) → DETECTED:
+//!   "the unparsed SQL returns other rows: multisets differ" (plans) and "expr_to_sql output does not parse back".
+//! * `JoinType::Right` printed as LEFT OUTER JOIN → DETECTED: "the unparsed SQL returns other rows: row count differs".
 use crate::common::*;
 use datafusion::common::tree_node::{TreeNode, TreeNodeRecursion};
 use datafusion::error::DataFusionError;
